@@ -13,6 +13,7 @@ Layer B of C01/C13/C09, part 8: `CapsFx` for the whole class `XtermLike` — the
 external function and a parameter of the Render model): its result is one of the screen's palette entries.
 -/
 import Tcell.Lemmas.LayerBXterm
+import Tcell.Lemmas.FindColor
 namespace Tcell.LayerB
 open Tcell Tcell.Spec.Ecma48 Tcell.Spec.Ecma48.Term
 open Tcell.Render (tp parm ints)
@@ -189,6 +190,26 @@ theorem fitColor_valid {rc : RenderCfg} (hfit : FitOk rc) (c : Nat) : Color.vali
 theorem fitColor_idx {rc : RenderCfg} (hfit : FitOk rc) (c : Nat) : Render.fitColor rc c % 256 < Render.nColors rc := by
   have := fitColor_range hfit c; have := nColors_le rc
   omega
+
+/-- the palette the screen keeps (tscreen.go:226-236: `t.palette[i] = Color(i) | ColorValid`, `i < nColors`; `FindColor(fg, t.palette)` at 791, 801, 896) -/
+def screenPalette (rc : RenderCfg) : List Nat := (List.range (Render.nColors rc)).map (2^32 + ·)
+
+/-- **`FitOk` holds for tcell's own `FindColor`** (colorfit.go, model `Color.findColor`) over the screen's palette, whatever
+the colour distance is (go-colorful's CIE76 `float64` distance is an arbitrary `Metric` here): the scan returns one of the
+colours it was given.  So for a screen with at least one colour `FitOk` is not an assumption about tcell. -/
+theorem fitOk_findColor {α : Type} (m : Color.Metric α) (rc : RenderCfg) (hn : Render.nColors rc ≠ 0)
+    (hf : ∀ c, rc.fit c = Color.findColor m c (screenPalette rc)) : FitOk rc := by
+  intro col
+  have hne : screenPalette rc ≠ [] := by
+    intro h
+    have := congrArg List.length h
+    simp [screenPalette] at this
+    exact hn this
+  have := Color.findColor_mem' m col (screenPalette rc) hne
+  rw [← hf] at this
+  simp only [screenPalette, List.mem_map, List.mem_range] at this
+  obtain ⟨k, hk, e⟩ := this
+  rw [← e]; omega
 
 /-! ## sendFgBg -/
 
